@@ -91,6 +91,9 @@ type Case struct {
 	ContentType string `json:"content_type"`
 	Cuts        []int  `json:"cuts"`
 	StreamLen   int    `json:"stream_len"`
+	// multi-stream histories: the streams created, in order, on ONE factory and the order of their calls
+	History []Case `json:"history,omitempty"`
+	Order   []int  `json:"call_order,omitempty"`
 }
 
 type config struct {
@@ -455,75 +458,123 @@ func errClass(err error) string {
 	return s
 }
 
-// eval runs one case on the real code and returns the symptoms found.
-func (it *item) eval(cuts []int) []symptom {
-	cfg, b := it.cfg, it.b
-	sinkC, sinkS := &sinkRec{}, &sinkRec{}
-	var procC, procS *procRec
-	factory := mgrpc.AsStreamProcessorFactory(func(_ *url.URL, server, client mgrpc.Processor) (mgrpc.Processor, mgrpc.Processor) {
-		procC, procS = &procRec{dest: server}, &procRec{dest: client}
-		return procC, procS
-	})
-	var syms []symptom
-	var c2s, s2c h2.Processor
+// recFactory is the grpc.ProcessorFactory under which every stream gets a fresh recording pass-through
+// processor pair; the harness picks the pair up right after the stream's processors have been created.
+type recFactory struct{ lastC, lastS *procRec }
+
+func (f *recFactory) make(_ *url.URL, server, client mgrpc.Processor) (mgrpc.Processor, mgrpc.Processor) {
+	f.lastC, f.lastS = &procRec{dest: server}, &procRec{dest: client}
+	return f.lastC, f.lastS
+}
+
+func newFactory() (*recFactory, h2.StreamProcessorFactory) {
+	rf := &recFactory{}
+	return rf, mgrpc.AsStreamProcessorFactory(rf.make)
+}
+
+// streamRun is one stream being pushed, call by call, through the processors a factory built for it.
+type streamRun struct {
+	it           *item
+	sinkC, sinkS *sinkRec
+	procC, procS *procRec
+	c2s, s2c     h2.Processor
+	src          []srcEvent
+	steps        []func() error
+	kinds        []string
+	next         int
+	dead         bool // setup failed, or a call failed: the relay would have torn the connection down
+	syms         []symptom
+}
+
+// start creates the stream's processors (what the relay does on the stream's first frame) and plans its calls.
+func (it *item) start(rf *recFactory, factory h2.StreamProcessorFactory, cuts []int) *streamRun {
+	r := &streamRun{it: it, sinkC: &sinkRec{}, sinkS: &sinkRec{}}
+	rf.lastC, rf.lastS = nil, nil
 	func() {
 		defer func() {
-			if r := recover(); r != nil {
-				syms = append(syms, symptom{"setup:panic", fmt.Sprintf("AsStreamProcessorFactory panicked: %v", r)})
+			if p := recover(); p != nil {
+				r.syms = append(r.syms, symptom{"setup:panic", fmt.Sprintf("the stream processor factory panicked: %v", p)})
 			}
 		}()
-		c2s, s2c = factory(theURL, h2.NewProcessorsForVerif(sinkC, sinkS))
+		r.c2s, r.s2c = factory(theURL, h2.NewProcessorsForVerif(r.sinkC, r.sinkS))
 	}()
-	if len(syms) > 0 || c2s == nil || s2c == nil || procC == nil {
-		if len(syms) == 0 {
-			syms = append(syms, symptom{"setup:nil_processor", "factory returned a nil h2.Processor for a non-nil grpc.Processor"})
+	r.procC, r.procS = rf.lastC, rf.lastS
+	if len(r.syms) > 0 || r.c2s == nil || r.s2c == nil || r.procC == nil || r.procS == nil {
+		if len(r.syms) == 0 {
+			r.syms = append(r.syms, symptom{"setup:nil_processor", "factory returned a nil h2.Processor for a non-nil grpc.Processor"})
 		}
-		return syms
+		r.dead = true
+		return r
 	}
-	put, sink, proc, otherSink, otherProc := c2s, sinkC, procC, sinkS, procS
-	if cfg.dir == dirS2C {
-		put, sink, proc, otherSink, otherProc = s2c, sinkS, procS, sinkC, procC
+	put, proc := r.c2s, r.procC
+	if it.cfg.dir == dirS2C {
+		put, proc = r.s2c, r.procS
 	}
-	proc.expect = b.plain
-	src := it.source(cuts)
-
-	// drive the implementation, one processor call per source frame
-	call := func(what string, f func() error) bool {
-		var err error
-		var pan interface{}
-		func() {
-			defer func() {
-				if r := recover(); r != nil {
-					pan = r
-				}
-			}()
-			err = f()
-		}()
-		it.calls++
-		if pan != nil {
-			syms = append(syms, symptom{"impl:" + what + ":panic", fmt.Sprintf("%s call panicked: %v", what, pan)})
-			return false
-		}
-		if err != nil {
-			syms = append(syms, symptom{"impl:" + what + ":error:" + errClass(err), fmt.Sprintf("%s call on a well-formed stream returned error %q (the relay would tear the connection down)", what, err)})
-			return false
-		}
-		return true
+	proc.expect = it.b.plain
+	r.src = it.source(cuts)
+	if it.cfg.dir == dirS2C {
+		r.steps = append(r.steps, func() error { return r.c2s.Header(it.pre, false, prio) })
+		r.kinds = append(r.kinds, "header")
 	}
-	ok := true
-	if cfg.dir == dirS2C {
-		ok = call("header", func() error { return c2s.Header(it.pre, false, prio) })
-	}
-	for i := 0; ok && i < len(src); i++ {
-		e := src[i]
+	for _, e := range r.src {
+		e := e
 		if e.isHdr {
-			ok = call("header", func() error { return put.Header(e.hdr, e.end, prio) })
+			r.steps = append(r.steps, func() error { return put.Header(e.hdr, e.end, prio) })
+			r.kinds = append(r.kinds, "header")
 		} else {
-			ok = call("data", func() error { return put.Data(e.data, e.end) })
+			r.steps = append(r.steps, func() error { return put.Data(e.data, e.end) })
+			r.kinds = append(r.kinds, "data")
 		}
 	}
-	if !ok {
+	return r
+}
+
+// nsteps is the number of processor calls the stream consists of (known without running it).
+func (it *item) nsteps(cuts []int) int {
+	n := len(it.source(cuts))
+	if it.cfg.dir == dirS2C {
+		n++
+	}
+	return n
+}
+
+// step makes the stream's next processor call on the implementation (one call per source frame).
+func (r *streamRun) step() {
+	if r.dead || r.next >= len(r.steps) {
+		return
+	}
+	what, f := r.kinds[r.next], r.steps[r.next]
+	r.next++
+	var err error
+	var pan interface{}
+	func() {
+		defer func() {
+			if p := recover(); p != nil {
+				pan = p
+			}
+		}()
+		err = f()
+	}()
+	r.it.calls++
+	if pan != nil {
+		r.syms = append(r.syms, symptom{"impl:" + what + ":panic", fmt.Sprintf("%s call panicked: %v", what, pan)})
+		r.dead = true
+	} else if err != nil {
+		r.syms = append(r.syms, symptom{"impl:" + what + ":error:" + errClass(err), fmt.Sprintf("%s call on a well-formed stream returned error %q (the relay would tear the connection down)", what, err)})
+		r.dead = true
+	}
+}
+
+// finish applies the oracles to what the recorders saw.
+func (r *streamRun) finish() []symptom {
+	it := r.it
+	cfg, b, syms, src := it.cfg, it.b, r.syms, r.src
+	if r.dead {
 		return syms
+	}
+	sink, proc, otherSink, otherProc := r.sinkC, r.procC, r.sinkS, r.procS
+	if cfg.dir == dirS2C {
+		sink, proc, otherSink, otherProc = r.sinkS, r.procS, r.sinkC, r.procC
 	}
 
 	// the other direction must only have seen the request headers (server->client cases) or nothing
@@ -564,6 +615,16 @@ func (it *item) eval(cuts []int) []symptom {
 		syms = append(syms, s)
 	}
 	return syms
+}
+
+// eval runs one single-stream case on the real code (fresh factory) and returns the symptoms found.
+func (it *item) eval(cuts []int) []symptom {
+	rf, factory := newFactory()
+	r := it.start(rf, factory, cuts)
+	for !r.dead && r.next < len(r.steps) {
+		r.step()
+	}
+	return r.finish()
 }
 
 func diffPassThrough(src []srcEvent, got []sinkEvent) string {
@@ -959,13 +1020,21 @@ func maxCutsLong(nmsgs, maxMsgs int) int {
 	return 3
 }
 
-func configs(maxMsgs int) []config {
+func configs(maxMsgs int, bigOnlyAlone bool) []config {
 	var out []config
 	k := len(sizes) * 2
 	lib.Sequences(k, maxMsgs, func(seq []int) {
 		var msgs []msgSpec
 		for _, s := range seq {
 			msgs = append(msgs, msgSpec{sizes[s/2], s%2 == 1})
+		}
+		if bigOnlyAlone && len(msgs) > 1 {
+			// quick tier: the 70 000-byte message appears in single-message sequences only
+			for _, m := range msgs {
+				if m.Size == 70000 {
+					return
+				}
+			}
 		}
 		pls := []int{plLast, plSeparate, plTrailers}
 		if len(msgs) == 0 {
@@ -986,6 +1055,250 @@ func configs(maxMsgs int) []config {
 		}
 	})
 	return out
+}
+
+// ---- multi-stream histories: several streams on ONE factory, their calls interleaved ----
+//
+// AsStreamProcessorFactory returns one factory per proxy configuration; the relay calls it once per stream.
+// Every stream must obey the single-stream oracles whatever other streams the same factory has served or is
+// serving. A history is a list of streams (created in order, each on its first call) plus an interleaving of
+// their processor calls. A symptom is attributed to the history only if the same stream alone on a fresh
+// factory does not show it (so that single-stream defects keep their own single signature).
+
+type streamType struct {
+	cfg  config
+	cuts []int
+}
+
+func historyAlphabet(thorough bool) []streamType {
+	type body struct {
+		enc  int
+		msgs []msgSpec
+	}
+	bodies := []body{{encIdentity, []msgSpec{{1, false}}}, {encGzip, []msgSpec{{5, true}}}}
+	pls := []int{plLast}
+	if thorough {
+		bodies = append(bodies, body{encSnappy, []msgSpec{{5, true}, {0, false}}}, body{encDeflate, []msgSpec{{300, true}}})
+		pls = append(pls, plSeparate)
+	}
+	var out []streamType
+	for _, ct := range []string{"application/grpc", "application/json"} {
+		for _, bd := range bodies {
+			for _, pl := range pls {
+				for dir := range dirNames {
+					c := config{msgs: bd.msgs, enc: bd.enc, pl: pl, dir: dir, ct: ct}
+					L := len(build(c.msgs, c.enc).stream)
+					// fixed fragmentation: one boundary inside the first length prefix, one before the last byte
+					out = append(out, streamType{c, []int{2, L - 1}})
+				}
+			}
+		}
+	}
+	return out
+}
+
+// merges calls f with every interleaving (as a list of stream indexes) of sequences of the given lengths in
+// which stream 0 makes the first call and stream i+1 does not start before stream i has started.
+func merges(lens []int, f func(order []int)) {
+	left := append([]int{}, lens...)
+	total := 0
+	for _, l := range lens {
+		total += l
+	}
+	order := make([]int, 0, total)
+	var rec func()
+	rec = func() {
+		if len(order) == total {
+			f(order)
+			return
+		}
+		for i := range left {
+			if left[i] == 0 {
+				continue
+			}
+			if i > 0 && left[i] == lens[i] && left[i-1] == lens[i-1] {
+				continue // stream i may not start before stream i-1
+			}
+			left[i]--
+			order = append(order, i)
+			rec()
+			order = order[:len(order)-1]
+			left[i]++
+		}
+	}
+	rec()
+}
+
+type histTask struct {
+	types       []int // indexes into the alphabet
+	interleaved bool  // all interleavings, or only "one stream after the other"
+}
+
+type histResult struct {
+	histories, streams, calls, interleavedHist, mixedKinds, violating int64
+	viol                                                            map[string]*vbest
+}
+
+func runHistTask(alpha []streamType, t histTask) *histResult {
+	res := &histResult{viol: map[string]*vbest{}}
+	items := make([]*item, len(t.types))
+	solo := make([]map[string]bool, len(t.types))
+	lens := make([]int, len(t.types))
+	mixed := false
+	for k, ti := range t.types {
+		items[k] = newItem(alpha[ti].cfg)
+		lens[k] = items[k].nsteps(alpha[ti].cuts)
+		solo[k] = map[string]bool{}
+		if !countOnly {
+			for _, sy := range items[k].eval(alpha[ti].cuts) {
+				solo[k][sy.sig] = true
+			}
+		}
+		if items[k].cfg.isGRPC() != items[0].cfg.isGRPC() {
+			mixed = true
+		}
+	}
+	one := func(order []int) {
+		res.histories++
+		if mixed {
+			res.mixedKinds++
+		}
+		for i := 1; i < len(order); i++ {
+			if order[i] < order[i-1] {
+				res.interleavedHist++
+				break
+			}
+		}
+		if countOnly {
+			return
+		}
+		rf, factory := newFactory()
+		runs := make([]*streamRun, len(items))
+		for _, k := range order {
+			if runs[k] == nil {
+				runs[k] = items[k].start(rf, factory, alpha[t.types[k]].cuts)
+			}
+			runs[k].step()
+		}
+		bad := false
+		for k, r := range runs {
+			res.streams++
+			for _, sy := range r.finish() {
+				if solo[k][sy.sig] {
+					continue
+				}
+				bad = true
+				sig := "multistream:" + sy.sig
+				v := res.viol[sig]
+				if v == nil {
+					v = &vbest{}
+					res.viol[sig] = v
+				}
+				v.count++
+				inter := 0
+				for i := 1; i < len(order); i++ {
+					if order[i] < order[i-1] {
+						inter++
+					}
+				}
+				key := []int{len(items), inter, len(order), k}
+				for _, ti := range t.types {
+					key = append(key, ti)
+				}
+				if v.key == nil || less(key, v.key) {
+					cs := Case{Order: append([]int{}, order...)}
+					for j, ti := range t.types {
+						cs.History = append(cs.History, alpha[ti].cfg.toCase(alpha[ti].cuts, len(items[j].b.stream)))
+					}
+					v.key, v.cs = key, cs
+					v.desc = fmt.Sprintf("stream #%d (%s, %s) of a history of %d streams served by one factory violates its single-stream oracle although the same stream alone on a fresh factory does not: %s",
+						k, items[k].cfg.ct, dirNames[items[k].cfg.dir], len(items), sy.desc)
+				}
+			}
+		}
+		if bad {
+			res.violating++
+		}
+	}
+	if t.interleaved {
+		merges(lens, one)
+	} else {
+		var order []int
+		for k, l := range lens {
+			for i := 0; i < l; i++ {
+				order = append(order, k)
+			}
+		}
+		one(order)
+	}
+	for _, it := range items {
+		res.calls += it.calls
+	}
+	return res
+}
+
+func histPls(tier string) []int {
+	if tier == "thorough" {
+		return []int{plLast, plSeparate}
+	}
+	return []int{plLast}
+}
+
+func histTasks(n int) []histTask {
+	var out []histTask
+	for a := 0; a < n; a++ {
+		for b := 0; b < n; b++ {
+			out = append(out, histTask{types: []int{a, b}, interleaved: true})
+		}
+	}
+	for a := 0; a < n; a++ {
+		for b := 0; b < n; b++ {
+			for c := 0; c < n; c++ {
+				out = append(out, histTask{types: []int{a, b, c}})
+			}
+		}
+	}
+	return out
+}
+
+func evalHistoryCase(cs Case) ([]symptom, error) {
+	var items []*item
+	var cuts [][]int
+	for _, c := range cs.History {
+		cfg, err := caseToConfig(c)
+		if err != nil {
+			return nil, err
+		}
+		items = append(items, newItem(cfg))
+		cuts = append(cuts, c.Cuts)
+	}
+	rf, factory := newFactory()
+	runs := make([]*streamRun, len(items))
+	for _, k := range cs.Order {
+		if k < 0 || k >= len(items) {
+			return nil, fmt.Errorf("bad call_order")
+		}
+		if runs[k] == nil {
+			runs[k] = items[k].start(rf, factory, cuts[k])
+		}
+		runs[k].step()
+	}
+	var out []symptom
+	for k, r := range runs {
+		if r == nil {
+			continue
+		}
+		solo := map[string]bool{}
+		for _, sy := range newItem(items[k].cfg).eval(cuts[k]) {
+			solo[sy.sig] = true
+		}
+		for _, sy := range r.finish() {
+			if !solo[sy.sig] {
+				out = append(out, symptom{"multistream:" + sy.sig, fmt.Sprintf("stream #%d: %s", k, sy.desc)})
+			}
+		}
+	}
+	return out, nil
 }
 
 func main() {
@@ -1011,7 +1324,7 @@ func main() {
 		return
 	}
 	rep := lib.NewReport("C11", "model_checking")
-	cfgs := configs(maxMsgs)
+	cfgs := configs(maxMsgs, tier != "thorough")
 	// dispatch the most expensive configurations first (load balance); results are order independent
 	order := make([]int, len(cfgs))
 	costs := make([]int64, len(cfgs))
@@ -1075,6 +1388,39 @@ func main() {
 			}
 		}
 	})
+	// multi-stream histories on one factory
+	alpha := historyAlphabet(tier == "thorough")
+	tasks := histTasks(len(alpha))
+	lib.Parallel(len(tasks), func(k int) {
+		if atomic.LoadInt32(&timedOut) != 0 || time.Now().After(deadline) {
+			atomic.StoreInt32(&timedOut, 1)
+			return
+		}
+		res := runHistTask(alpha, tasks[k])
+		mu.Lock()
+		defer mu.Unlock()
+		rep.Count("evaluations", res.histories)
+		rep.Count("transitions", res.calls)
+		rep.Count("multi_stream_histories", res.histories)
+		rep.Count("multi_stream_streams_checked", res.streams)
+		rep.Count("multi_stream_histories_interleaved", res.interleavedHist)
+		rep.Count("multi_stream_histories_mixing_grpc_and_non_grpc", res.mixedKinds)
+		rep.Count("cases_violating", res.violating)
+		if k%97 == 0 && len(tasks[k].types) == 2 {
+			rep.Sample(12, map[string]interface{}{"multi_stream_history": []Case{alpha[tasks[k].types[0]].cfg.toCase(alpha[tasks[k].types[0]].cuts, 0), alpha[tasks[k].types[1]].cfg.toCase(alpha[tasks[k].types[1]].cuts, 0)}, "interleavings_evaluated": res.histories})
+		}
+		for sig, v := range res.viol {
+			g := viol[sig]
+			if g == nil {
+				g = &vbest{}
+				viol[sig] = g
+			}
+			g.count += v.count
+			if g.key == nil || less(v.key, g.key) {
+				g.key, g.desc, g.cs = v.key, v.desc, v.cs
+			}
+		}
+	})
 	if timedOut != 0 {
 		rep.Incomplete = "internal deadline reached before all cut sets were evaluated"
 	}
@@ -1090,17 +1436,23 @@ func main() {
 		b, _ := json.Marshal(v.cs)
 		rep.Violate(s, fmt.Sprintf("%s [%d failing cases; simplest: %s]", v.desc, v.count, b), v.cs)
 	}
+	bigNote := ""
+	if tier != "thorough" {
+		bigNote = " (quick: the 70000-byte message only in single-message sequences)"
+	}
 	rep.Coverage["violating_cases_per_signature"] = counts
 	rep.Coverage["traces_validated_against_impl"] = rep.Counter("evaluations")
 	rep.Coverage["streams_with_all_cut_sets"] = exhaustiveStreams
 	rep.Coverage["streams_with_le3_cuts_over_boundary_positions"] = boundedStreams
 	rep.Coverage["exhaustive"] = rep.Incomplete == ""
 	rep.Coverage["rule"] = "cases = every (message sequence, per-message compressed flag, grpc-encoding, END_STREAM placement, direction, content-type, cut set); " +
+plus every multi-stream history (ordered pair of stream types on one factory x every interleaving of their calls; ordered triples one after the other); "+
 		"states = distinct stream configurations executed, transitions = Header/Data calls made on the real adapter; a case is non-trivial when the stream is gRPC, " +
 		"has at least one message and at least one DATA frame boundary falls strictly inside a message frame (inside its 5-byte prefix or inside its payload), i.e. reassembly across frames is required"
 	rep.Coverage["bounds"] = fmt.Sprintf("message sequences of length 0..%d over sizes %v x compressed flag per message; encodings %v; END_STREAM on %v (zero-message streams: %v); both directions; content-type application/grpc and application/json (sequences of <=1 message also application/grpc+proto, a gRPC content-type, and application/grpc-web, not one); "+
-		"all 2^(L-1) cut sets for streams of L<=%d bytes, for longer streams all cut sets with <=3 cuts (<=2 cuts for sequences of %d messages) over the position set {prefix start, prefix end, message end}+-2 and all multiples of 16384, plus the cut set of all multiples of 16384",
-		maxMsgs, sizes, encNames, plNames[:3], []string{plNames[plSeparate], plNames[plHeadersOnly], plNames[plTrailers]}, maxEx, maxMsgs)
+		"all 2^(L-1) cut sets for streams of L<=%d bytes, for longer streams all cut sets with <=3 cuts (<=2 cuts for sequences of %d messages) over the position set {prefix start, prefix end, message end}+-2 and all multiples of 16384, plus the cut set of all multiples of 16384%s; "+
+		"multi-stream histories on one factory: %d stream types (content-type grpc/json x %d bodies x %d END_STREAM placements x 2 directions, fixed fragmentation {2, L-1}): all %d ordered pairs x all interleavings of their calls, all %d ordered triples run one after the other",
+		maxMsgs, sizes, encNames, plNames[:3], []string{plNames[plSeparate], plNames[plHeadersOnly], plNames[plTrailers]}, maxEx, maxMsgs, bigNote, len(alpha), len(alpha)/8*2/len(histPls(tier)), len(histPls(tier)), len(alpha)*len(alpha), len(alpha)*len(alpha)*len(alpha))
 	rep.Assumptions = []string{
 		"the adapter is driven directly through the h2.Processor interface exactly as relay.processFrame does (one Header/Data call per frame, one goroutine per direction); HTTP/2 framing, flow control and hpack are out of scope (other properties)",
 		"deflate means raw DEFLATE (compress/flate), the repository's own convention; snappy sources use the framing (stream) format, the only one the adapter can decode",
@@ -1129,13 +1481,21 @@ func replay(path string, maxEx int) {
 		fmt.Println("bad replay file:", err)
 		os.Exit(2)
 	}
-	cfg, err := caseToConfig(rp.First.Replay)
-	if err != nil {
-		fmt.Println(err)
-		os.Exit(2)
+	var syms []symptom
+	if len(rp.First.Replay.History) > 0 {
+		syms, err = evalHistoryCase(rp.First.Replay)
+		if err != nil {
+			fmt.Println(err)
+			os.Exit(2)
+		}
+	} else {
+		cfg, err := caseToConfig(rp.First.Replay)
+		if err != nil {
+			fmt.Println(err)
+			os.Exit(2)
+		}
+		syms = newItem(cfg).eval(rp.First.Replay.Cuts)
 	}
-	it := newItem(cfg)
-	syms := it.eval(rp.First.Replay.Cuts)
 	fmt.Printf("replay of %s: case %+v\n", rp.Sig, rp.First.Replay)
 	hit := false
 	for _, s := range syms {
